@@ -344,4 +344,272 @@ theorem score_refusals_witness :
       [([(0, 3), (1, 2)], 2), ([(0, 1)], 8)] 1 = .error (.other "StatisticsError") := by
   constructor <;> decide +kernel
 
+/-! ### ScoreVoting on real profiles (positive counts), no truncation: total -/
+
+/-- a grade dict as `corrected_scores` builds it from positive ballot counts: distinct grades, positive counts,
+    at least one grade -/
+def GoodCS (cs : CScores) : Prop := (ckeys cs).Nodup ∧ (∀ p ∈ cs, 0 < p.2) ∧ cs ≠ []
+
+theorem mem_setCount {d : CScores} {s : Rat} {n : Int} {p : Rat × Int} (h : p ∈ setCount d s n) :
+    p = (s, n) ∨ p ∈ d := by
+  induction d with
+  | nil => simp only [setCount, List.mem_singleton] at h; exact Or.inl h
+  | cons q rest ih =>
+    obtain ⟨k, v⟩ := q
+    unfold setCount at h
+    by_cases hk : k = s
+    · rw [if_pos hk] at h
+      rcases List.mem_cons.mp h with h | h
+      · left; rw [h, hk]
+      · right; exact List.mem_cons_of_mem _ h
+    · rw [if_neg hk] at h
+      rcases List.mem_cons.mp h with h | h
+      · right; exact h ▸ List.mem_cons_self
+      · rcases ih h with h | h
+        · exact Or.inl h
+        · exact Or.inr (List.mem_cons_of_mem _ h)
+
+theorem self_mem_setCount (d : CScores) (s : Rat) (n : Int) : (s, n) ∈ setCount d s n := by
+  induction d with
+  | nil => simp [setCount]
+  | cons q rest ih =>
+    obtain ⟨k, v⟩ := q
+    unfold setCount
+    by_cases hk : k = s
+    · rw [if_pos hk, hk]; exact List.mem_cons_self
+    · rw [if_neg hk]; exact List.mem_cons_of_mem _ ih
+
+theorem mem_setCount_of_ne {d : CScores} {s : Rat} {n : Int} {p : Rat × Int} (hp : p ∈ d) (hne : p.1 ≠ s) :
+    p ∈ setCount d s n := by
+  induction d with
+  | nil => cases hp
+  | cons q rest ih =>
+    obtain ⟨k, v⟩ := q
+    unfold setCount
+    by_cases hk : k = s
+    · rw [if_pos hk]
+      rcases List.mem_cons.mp hp with h | h
+      · exact absurd (by rw [h]; exact hk) hne
+      · exact List.mem_cons_of_mem _ h
+    · rw [if_neg hk]
+      rcases List.mem_cons.mp hp with h | h
+      · exact h ▸ List.mem_cons_self
+      · exact List.mem_cons_of_mem _ (ih h)
+
+theorem getCount_nonneg {d : CScores} (h : ∀ p ∈ d, 0 < p.2) (s : Rat) : 0 ≤ getCount d s := by
+  unfold getCount
+  cases hf : d.find? (fun p => decide (p.1 = s)) with
+  | none => exact le_refl _
+  | some p => exact le_of_lt (h p (List.mem_of_find?_eq_some hf))
+
+theorem goodCS_addCount {cs : CScores} (h : cs = [] ∨ GoodCS cs) (s : Rat) {n : Int} (hn : 0 < n) :
+    GoodCS (addCount cs s n) := by
+  unfold addCount
+  rcases h with rfl | ⟨h1, h2, _⟩
+  · refine ⟨by simp [setCount, ckeys], ?_, by simp [setCount]⟩
+    intro p hp
+    simp only [setCount, List.mem_singleton] at hp
+    rw [hp]; simp only [getCount_nil]; omega
+  · refine ⟨ckeys_setCount_nodup h1 _ _, ?_, ?_⟩
+    · intro p hp
+      rcases mem_setCount hp with rfl | hp
+      · have := getCount_nonneg h2 s
+        simp only; omega
+      · exact h2 p hp
+    · intro he
+      have := self_mem_setCount cs s (getCount cs s + n)
+      rw [he] at this; cases this
+
+/-- all grade dicts of a raw table are good -/
+def GoodT (t : ScoreTable) : Prop := ∀ p ∈ t, GoodCS p.2
+
+theorem goodT_addScore {t : ScoreTable} (h : GoodT t) (c : Cand) (s : Rat) {n : Int} (hn : 0 < n) :
+    GoodT (addScore t c s n) := by
+  induction t with
+  | nil =>
+    intro p hp
+    simp only [addScore, List.mem_singleton] at hp
+    rw [hp]
+    exact goodCS_addCount (Or.inl rfl) s hn
+  | cons q rest ih =>
+    obtain ⟨k, cs⟩ := q
+    have hq : GoodCS cs := h (k, cs) List.mem_cons_self
+    have hrest : GoodT rest := fun p hp => h p (List.mem_cons_of_mem _ hp)
+    unfold addScore
+    by_cases hk : k = c
+    · rw [if_pos hk]
+      intro p hp
+      rcases List.mem_cons.mp hp with rfl | hp
+      · exact goodCS_addCount (Or.inr hq) s hn
+      · exact hrest p hp
+    · rw [if_neg hk]
+      intro p hp
+      rcases List.mem_cons.mp hp with rfl | hp
+      · exact hq
+      · exact ih hrest p hp
+
+theorem goodT_rawFrom {votes : SProfile} (hpos : PosCounts votes) : ∀ (t : ScoreTable), GoodT t → GoodT (rawFrom t votes) := by
+  induction votes with
+  | nil => intro t h; exact h
+  | cons bn rest ih =>
+    intro t h
+    unfold rawFrom
+    simp only [List.foldl_cons]
+    have hn : 0 < bn.2 := hpos bn List.mem_cons_self
+    apply ih (fun x hx => hpos x (List.mem_cons_of_mem _ hx))
+    generalize bn.1 = b
+    induction b generalizing t with
+    | nil => exact h
+    | cons cs b' ihb =>
+      simp only [List.foldl_cons]
+      exact ihb _ (goodT_addScore h _ _ hn)
+
+theorem goodT_rawScores {votes : SProfile} (hpos : PosCounts votes) : GoodT (rawScores votes) :=
+  goodT_rawFrom hpos [] (fun _ h => by cases h)
+
+theorem expand_ne_nil_of_pos {cs : CScores} {p : Rat × Int} (hp : p ∈ cs) (h : 0 < p.2) : expand cs ≠ [] := by
+  intro he
+  have : p.1 ∈ expand cs := mem_expand.mpr ⟨p, hp, rfl, h⟩
+  rw [he] at this; cases this
+
+theorem totalVotes_pos {votes : SProfile} (hpos : PosCounts votes) (hne : votes ≠ []) : 0 < totalVotes votes := by
+  unfold totalVotes
+  induction votes with
+  | nil => exact absurd rfl hne
+  | cons bn rest ih =>
+    simp only [List.map_cons, List.sum_cons]
+    have h1 : 0 < bn.2 := hpos bn List.mem_cons_self
+    by_cases hr : rest = []
+    · subst hr; simp; exact h1
+    · have := ih (fun x hx => hpos x (List.mem_cons_of_mem _ hx)) hr
+      omega
+
+theorem totalCount_pos {cs : CScores} (h : GoodCS cs) : 0 < totalCount cs := by
+  obtain ⟨_, h2, h3⟩ := h
+  unfold totalCount
+  induction cs with
+  | nil => exact absurd rfl h3
+  | cons p rest ih =>
+    simp only [List.map_cons, List.sum_cons]
+    have h1 : 0 < p.2 := h2 p List.mem_cons_self
+    have : 0 ≤ (rest.map (·.2)).sum := List.sum_nonneg (by
+      intro x hx
+      obtain ⟨q, hq, rfl⟩ := List.mem_map.mp hx
+      exact le_of_lt (h2 q (List.mem_cons_of_mem _ hq)))
+    omega
+
+/-- giving the unscored value `u` to the voters who did not grade the candidate leaves at least one grade -/
+theorem expand_unscored_ne_nil {cs : CScores} (h : GoodCS cs) (u : Rat) {nVotes : Int} (hV : 0 < nVotes) :
+    expand (setCount cs u (nVotes - totalCount cs + getCount cs u)) ≠ [] := by
+  by_cases hex : ∃ p ∈ cs, p.1 ≠ u
+  · obtain ⟨p, hp, hne⟩ := hex
+    exact expand_ne_nil_of_pos (mem_setCount_of_ne hp hne) (h.2.1 p hp)
+  · have hall : ∀ p ∈ cs, p.1 = u := by
+      intro p hp
+      by_contra hne
+      exact hex ⟨p, hp, hne⟩
+    obtain ⟨h1, h2, h3⟩ := h
+    -- distinct keys, all equal to `u`: a single entry
+    cases cs with
+    | nil => exact absurd rfl h3
+    | cons p rest =>
+      have hrest : rest = [] := by
+        cases rest with
+        | nil => rfl
+        | cons q rest' =>
+          exfalso
+          have hp := hall p List.mem_cons_self
+          have hq := hall q (List.mem_cons_of_mem _ List.mem_cons_self)
+          have hnd := List.nodup_cons.mp h1
+          exact hnd.1 (by simp [hp, hq])
+      subst hrest
+      obtain ⟨k, v⟩ := p
+      have hk : k = u := hall (k, v) List.mem_cons_self
+      subst hk
+      have hc : nVotes - totalCount [(k, v)] + getCount [(k, v)] k = nVotes := by
+        simp [totalCount, getCount]
+      rw [hc]
+      exact expand_ne_nil_of_pos (self_mem_setCount _ _ _) hV
+
+/-- without truncation, the corrected grade dict of a candidate of a real profile is never empty -/
+theorem correctOne_ok_of_good {cfg : Cfg} (hT : cfg.trunc = .off) {cs : CScores} (h : GoodCS cs) {nVotes : Int}
+    (hV : 0 < nVotes) : ∃ cs', correctOne cfg cs nVotes = .ok cs' ∧ expand cs' ≠ [] := by
+  unfold correctOne
+  simp only [bind, Except.bind, pure, Except.pure, hT]
+  have htc := totalCount_pos h
+  have hne : expand cs ≠ [] := by
+    obtain ⟨_, h2, h3⟩ := h
+    cases cs with
+    | nil => exact absurd rfl h3
+    | cons p rest => exact expand_ne_nil_of_pos List.mem_cons_self (h2 p List.mem_cons_self)
+  split
+  · rename_i hlt
+    refine ⟨_, rfl, ?_⟩
+    exact expand_ne_nil_of_pos (p := (cfg.bottom, cfg.minCount)) List.mem_cons_self (by simp only; omega)
+  · cases hu : cfg.unscored with
+    | none => exact ⟨cs, rfl, hne⟩
+    | value u => exact ⟨_, rfl, expand_unscored_ne_nil h u hV⟩
+    | min =>
+      simp only
+      cases hm : listMin (expand cs) with
+      | error e => exact absurd (listMin_error hm).1 hne
+      | ok u => exact ⟨_, rfl, expand_unscored_ne_nil h u hV⟩
+
+/-- **`ScoreToSimpleVotes.convert` is total on real profiles without truncation** -/
+theorem convert_total (cfg : Cfg) (hT : cfg.trunc = .off) (votes : SProfile) (hpos : PosCounts votes) :
+    ∃ agg, convert cfg votes = .ok agg := by
+  by_cases hne : votes = []
+  · subst hne
+    exact ⟨[], rfl⟩
+  have hV := totalVotes_pos hpos hne
+  have hgood := goodT_rawScores hpos
+  unfold convert
+  -- corrected scores
+  have hcorr : ∃ t, correctedScores cfg votes = .ok t ∧ ∀ p ∈ t, expand p.2 ≠ [] := by
+    unfold correctedScores
+    simp only
+    generalize rawScores votes = raw at hgood
+    induction raw with
+    | nil => exact ⟨[], rfl, by simp⟩
+    | cons q rest ih =>
+      obtain ⟨t', ht', hne'⟩ := ih (fun p hp => hgood p (List.mem_cons_of_mem _ hp))
+      obtain ⟨cs', hcs', hne''⟩ := correctOne_ok_of_good hT (hgood q List.mem_cons_self) hV
+      refine ⟨(q.1, cs') :: t', ?_, ?_⟩
+      · rw [List.mapM_cons, hcs', ht']; rfl
+      · intro p hp
+        rcases List.mem_cons.mp hp with rfl | hp
+        · exact hne''
+        · exact hne' p hp
+  obtain ⟨t, ht, hne'⟩ := hcorr
+  rw [ht]
+  change ∃ agg, aggregate cfg.fn t = .ok agg
+  unfold aggregate
+  apply mapM_ok_of_forall
+  intro p hp
+  obtain ⟨v, hv⟩ := aggFn_ok_of_ne_nil cfg.fn (hne' p hp)
+  refine ⟨(p.1, v), ?_⟩
+  unfold aggregateOne
+  rw [hv]; rfl
+
+/-- **ScoreVoting never raises on a real profile** (positive ballot counts, no truncation; any aggregation function,
+    unscored value, minimum count): `evaluate` returns a result. -/
+theorem score_total (cfg : Cfg) (hT : cfg.trunc = .off) (votes : SProfile) (hpos : PosCounts votes) (n : Nat) :
+    ∃ r, scoreVoting cfg votes n = .ok r := by
+  obtain ⟨agg, h⟩ := convert_total cfg hT votes hpos
+  exact ⟨getNBest agg n, by unfold scoreVoting; rw [h]; rfl⟩
+
+/-- **ScoreVoting refusals** on real profiles without truncation: the declared refusals are the only ones (in fact
+    there is none at all: `score_total`).  With truncation the statement is false: `score_refusals_witness`. -/
+theorem score_refusals (cfg : Cfg) (hT : cfg.trunc = .off) (votes : SProfile) (hpos : PosCounts votes) (n : Nat)
+    (e : Err) (h : scoreVoting cfg votes n = .error e) : e = .votingSystemError ∨ e = .notImplemented := by
+  obtain ⟨r, hr⟩ := score_total cfg hT votes hpos n
+  rw [hr] at h; cases h
+
+/-- non-vacuity: a profile with partial ballots, a tie for the second place -/
+example : PosCounts [([(0, 5), (1, 2)], 2), ([(1, 2), (2, 2)], 1), ([(2, 2)], 1)] ∧
+    scoreCands [([(0, 5), (1, 2)], 2), ([(1, 2), (2, 2)], 1), ([(2, 2)], 1)] = [0, 1, 2] ∧
+    scoreVoting (C12.plainCfg .mean) [([(0, 5), (1, 2)], 2), ([(1, 2), (2, 2)], 1), ([(2, 2)], 1)] 2
+      = .ok [Slot.cand 0, Slot.tie [1, 2]] := by
+  refine ⟨by decide +kernel, by decide +kernel, by decide +kernel⟩
+
 end VL.C08
